@@ -4,18 +4,20 @@ compute (T5).  Only statements, main theorems, finding witnesses and non-vacuity
 here; helpers are in Lemmas/EncodeDecimal.lean and Lemmas/EncodeExpr.lean.
 
 Summary of what the model (bug-compatibly) does:
-* the two operands are looked up first (a symbol is replaced by its table entry), then the two `.int`
-  attributes are combined; `.int` is a MAGNITUDE, the `negative` flag of an operand is never consulted;
+* the two operands are looked up first (a symbol is replaced by its table entry), then their SIGNED values
+  (`NumericValue.signed()`: magnitude and `negative` flag; repair batch B2 — before, the magnitudes) are combined;
+  division is `int(left / right)`, truncation towards zero;
 * the Python int is printed with `"{}".format` and re-read by the STRING constructor, so the range is
   −32768..65535 and everything outside is an error; division by zero is an error;
 * the mode of the result is extended if an operand is, else direct — except that a result above 255 is extended
   whatever the operands were (fix A13: `$80+$80` used to become a truncated direct operand);
 * `calculate_address_offset` always computes `address op constant`, on whichever side the address is; the
-  constant is a number or (since fix 9045646) the ADDRESS of a second label; anything else is a diagnostic.
+  constant is a SIGNED number or (since fix 9045646) the ADDRESS of a second label; anything else is a diagnostic.
 -/
 import CoCoVerif.Lemmas.EncodeExpr
 import CoCoVerif.Lemmas.EncodeWitness
 import CoCoVerif.Lemmas.EncodeProgram
+import CoCoVerif.Props.C01
 
 namespace CoCo.Props
 open CoCo CoCo.Asm
@@ -58,41 +60,42 @@ theorem numResult_spec (m : Mode) (z : Int) :
 `resMode ma mb z` (the mode of a result `z`) is `.extended` for `z > 255` and `exprMode ma mb` otherwise (fix A13);
 `posNum m n = .numeric n (if m = .extended then some 4 else if n < 256 then some 2 else none) m false`,
 `negNum m n = .numeric n (if m = .extended then some 4 else none) m true`.
-The neg flags `na nb` of the operands do not occur on the right-hand sides: the model ignores them. -/
+These are the statements for NON-NEGATIVE operands (neg flag `false`); operands of either sign: `resolve_signed`,
+`numericArith` below. -/
 
 section numeric
-variable (a b : Nat) (ha hb : Option Nat) (ma mb : Mode) (na nb : Bool) (m : Mode) (ae : Bool) (t : SymTab)
+variable (a b : Nat) (ha hb : Option Nat) (ma mb : Mode) (m : Mode) (ae : Bool) (t : SymTab)
 
 theorem resolve_add :
-    (Value.expr (.numeric a ha ma na) (.numeric b hb mb nb) '+' m ae).resolve t =
+    (Value.expr (.numeric a ha ma false) (.numeric b hb mb false) '+' m ae).resolve t =
       if a + b > 65535 then .error .other else .ok (posNum (resMode ma mb ((a + b : Nat) : Int)) (a + b)) := by
   rw [resolve_expr_numeric]
-  have : modelArith '+' a b = some (((a + b : Nat) : Int)) := by simp [modelArith]
+  have : modelArith '+' (sInt a false) (sInt b false) = some (((a + b : Nat) : Int)) := by simp [modelArith]
   rw [this]; exact numResult_ofNat _ _
 
 theorem resolve_add_ok (h : a + b ≤ 65535) :
-    (Value.expr (.numeric a ha ma na) (.numeric b hb mb nb) '+' m ae).resolve t =
+    (Value.expr (.numeric a ha ma false) (.numeric b hb mb false) '+' m ae).resolve t =
       .ok (posNum (resMode ma mb ((a + b : Nat) : Int)) (a + b)) := by
   rw [resolve_add]; simp; omega
 
 theorem resolve_add_overflow (h : a + b > 65535) :
-    (Value.expr (.numeric a ha ma na) (.numeric b hb mb nb) '+' m ae).resolve t = .error .other := by
+    (Value.expr (.numeric a ha ma false) (.numeric b hb mb false) '+' m ae).resolve t = .error .other := by
   rw [resolve_add]; simp [h]
 
 theorem resolve_sub_nonneg (h : b ≤ a) :
-    (Value.expr (.numeric a ha ma na) (.numeric b hb mb nb) '-' m ae).resolve t =
+    (Value.expr (.numeric a ha ma false) (.numeric b hb mb false) '-' m ae).resolve t =
       if a - b > 65535 then .error .other else .ok (posNum (resMode ma mb ((a - b : Nat) : Int)) (a - b)) := by
   rw [resolve_expr_numeric]
-  have : modelArith '-' a b = some (((a - b : Nat) : Int)) := by
+  have : modelArith '-' (sInt a false) (sInt b false) = some (((a - b : Nat) : Int)) := by
     have : (a : Int) - b = ((a - b : Nat) : Int) := by omega
     simp [modelArith, this]
   rw [this]; exact numResult_ofNat _ _
 
 theorem resolve_sub_neg (h : a < b) :
-    (Value.expr (.numeric a ha ma na) (.numeric b hb mb nb) '-' m ae).resolve t =
+    (Value.expr (.numeric a ha ma false) (.numeric b hb mb false) '-' m ae).resolve t =
       if b - a > 32768 then .error .other else .ok (negNum (exprMode ma mb) (b - a)) := by
   rw [resolve_expr_numeric]
-  have : modelArith '-' a b = some (-(((b - a : Nat) : Int))) := by
+  have : modelArith '-' (sInt a false) (sInt b false) = some (-(((b - a : Nat) : Int))) := by
     have : (a : Int) - b = -((b - a : Nat) : Int) := by omega
     simp [modelArith, this]
   rw [this]
@@ -102,30 +105,30 @@ theorem resolve_sub_neg (h : a < b) :
   simp only [hm]; exact numResult_negOfNat _ _ (by omega)
 
 theorem resolve_mul :
-    (Value.expr (.numeric a ha ma na) (.numeric b hb mb nb) '*' m ae).resolve t =
+    (Value.expr (.numeric a ha ma false) (.numeric b hb mb false) '*' m ae).resolve t =
       if a * b > 65535 then .error .other else .ok (posNum (resMode ma mb ((a * b : Nat) : Int)) (a * b)) := by
   rw [resolve_expr_numeric]
-  have : modelArith '*' a b = some (((a * b : Nat) : Int)) := by simp [modelArith]
+  have : modelArith '*' (sInt a false) (sInt b false) = some (((a * b : Nat) : Int)) := by simp [modelArith]
   rw [this]; exact numResult_ofNat _ _
 
 theorem resolve_div_zero :
-    (Value.expr (.numeric a ha ma na) (.numeric 0 hb mb nb) '/' m ae).resolve t = .error .other := by
+    (Value.expr (.numeric a ha ma false) (.numeric 0 hb mb false) '/' m ae).resolve t = .error .other := by
   rw [resolve_expr_numeric]
-  have : modelArith '/' a 0 = none := by simp [modelArith]
+  have : modelArith '/' (sInt a false) (sInt 0 false) = none := by simp [modelArith]
   rw [this]
 
 theorem resolve_div (h : b ≠ 0) :
-    (Value.expr (.numeric a ha ma na) (.numeric b hb mb nb) '/' m ae).resolve t =
+    (Value.expr (.numeric a ha ma false) (.numeric b hb mb false) '/' m ae).resolve t =
       if a / b > 65535 then .error .other else .ok (posNum (resMode ma mb ((a / b : Nat) : Int)) (a / b)) := by
   rw [resolve_expr_numeric]
-  have : modelArith '/' a b = some (((a / b : Nat) : Int)) := by simp [modelArith, h]
+  have : modelArith '/' (sInt a false) (sInt b false) = some (((a / b : Nat) : Int)) := by simp [modelArith, h]
   rw [this]; exact numResult_ofNat _ _
 
 /-- a 16-bit dividend never overflows -/
 theorem resolve_div_ok (h : b ≠ 0) (hab : a ≤ 65535) :
-    (Value.expr (.numeric a ha ma na) (.numeric b hb mb nb) '/' m ae).resolve t =
+    (Value.expr (.numeric a ha ma false) (.numeric b hb mb false) '/' m ae).resolve t =
       .ok (posNum (resMode ma mb ((a / b : Nat) : Int)) (a / b)) := by
-  rw [resolve_div _ _ _ _ _ _ _ _ _ _ _ h]
+  rw [resolve_div _ _ _ _ _ _ _ _ _ h]
   have : a / b ≤ a := Nat.div_le_self a b
   have : ¬ (a / b > 65535) := by omega
   simp [this]
@@ -133,11 +136,11 @@ theorem resolve_div_ok (h : b ≠ 0) (hab : a ≤ 65535) :
 /-- model oddity (unreachable through `createV`, whose splitter only yields the four operators):
 any other operator character resolves to 0 -/
 theorem resolve_other_op (op : Char) (h : opChar op = false) :
-    (Value.expr (.numeric a ha ma na) (.numeric b hb mb nb) op m ae).resolve t =
+    (Value.expr (.numeric a ha ma false) (.numeric b hb mb false) op m ae).resolve t =
       .ok (posNum (exprMode ma mb) 0) := by
   rw [resolve_expr_numeric]
   simp only [opChar, Bool.or_eq_false_iff] at h
-  have : modelArith op a b = some ((0 : Nat) : Int) := by simp [modelArith, h.1.1.1, h.1.1.2, h.1.2, h.2]
+  have : modelArith op (sInt a false) (sInt b false) = some ((0 : Nat) : Int) := by simp [modelArith, h.1.1.1, h.1.1.2, h.1.2, h.2]
   rw [this]
   have hm : resMode ma mb ((0 : Nat) : Int) = exprMode ma mb := by simp [resMode]
   simp only [hm]; exact numResult_ofNat _ 0
@@ -184,10 +187,10 @@ section addr
 variable (ss : List Stmt) (ai a k : Nat) (ma mk m : Mode) (hk : Option Nat) (nk ae : Bool)
 
 theorem addrOffset_add (h : addrIntOf ss ai = some a) :
-    addrOffset ss (.expr (.address ai ma) (.numeric k hk mk nk) '+' m ae) =
+    addrOffset ss (.expr (.address ai ma) (.numeric k hk mk false) '+' m ae) =
       if a + k > 65535 then .diag else .ok (.numeric (a + k) (some 4) .extended false) := by
-  rw [addrOffset_addr_num ss ai a k ma mk m hk nk ae '+' h]
-  have : addrArith '+' a k = some (((a + k : Nat) : Int)) := by simp [addrArith]
+  rw [addrOffset_addr_num ss ai a k ma mk m hk false ae '+' h]
+  have : addrArith '+' a (sInt k false) = some (((a + k : Nat) : Int)) := by simp [addrArith]
   rw [this]
   by_cases h' : a + k > 65535
   · have : ((a + k : Nat) : Int) > 65535 := by omega
@@ -197,21 +200,21 @@ theorem addrOffset_add (h : addrIntOf ss ai = some a) :
     simp only [addrResult, h', h1, h2, if_false, Int.natAbs_natCast, decide_false]
 
 theorem addrOffset_add_ok (h : addrIntOf ss ai = some a) (hr : a + k ≤ 65535) :
-    addrOffset ss (.expr (.address ai ma) (.numeric k hk mk nk) '+' m ae) =
+    addrOffset ss (.expr (.address ai ma) (.numeric k hk mk false) '+' m ae) =
       .ok (.numeric (a + k) (some 4) .extended false) := by
-  rw [addrOffset_add ss ai a k ma mk m hk nk ae h]
+  rw [addrOffset_add ss ai a k ma mk m hk ae h]
   have : ¬ (a + k > 65535) := by omega
   simp [this]
 
 theorem addrOffset_add_overflow (h : addrIntOf ss ai = some a) (hr : a + k > 65535) :
-    addrOffset ss (.expr (.address ai ma) (.numeric k hk mk nk) '+' m ae) = .diag := by
-  rw [addrOffset_add ss ai a k ma mk m hk nk ae h]; simp [hr]
+    addrOffset ss (.expr (.address ai ma) (.numeric k hk mk false) '+' m ae) = .diag := by
+  rw [addrOffset_add ss ai a k ma mk m hk ae h]; simp [hr]
 
 theorem addrOffset_sub_nonneg (h : addrIntOf ss ai = some a) (hr : k ≤ a) (hb : a - k ≤ 65535) :
-    addrOffset ss (.expr (.address ai ma) (.numeric k hk mk nk) '-' m ae) =
+    addrOffset ss (.expr (.address ai ma) (.numeric k hk mk false) '-' m ae) =
       .ok (.numeric (a - k) (some 4) .extended false) := by
-  rw [addrOffset_addr_num ss ai a k ma mk m hk nk ae '-' h]
-  have : addrArith '-' a k = some (((a - k : Nat) : Int)) := by
+  rw [addrOffset_addr_num ss ai a k ma mk m hk false ae '-' h]
+  have : addrArith '-' a (sInt k false) = some (((a - k : Nat) : Int)) := by
     have : ((a : Int) - k) % 65536 = ((a - k : Nat) : Int) := by omega
     simp [addrArith, this]
   rw [this]
@@ -222,10 +225,10 @@ theorem addrOffset_sub_nonneg (h : addrIntOf ss ai = some a) (hr : k ≤ a) (hb 
 /-- a result below zero is reduced modulo 65536 (since fix 1477b47; before it the magnitude `k - a` was stored
 with the sign flag and encoded as a positive word) -/
 theorem addrOffset_sub_neg (h : addrIntOf ss ai = some a) (hr : a < k) (hk16 : k - a ≤ 65536) :
-    addrOffset ss (.expr (.address ai ma) (.numeric k hk mk nk) '-' m ae) =
+    addrOffset ss (.expr (.address ai ma) (.numeric k hk mk false) '-' m ae) =
       .ok (.numeric (65536 - (k - a)) (some 4) .extended false) := by
-  rw [addrOffset_addr_num ss ai a k ma mk m hk nk ae '-' h]
-  have : addrArith '-' a k = some (((65536 - (k - a) : Nat) : Int)) := by
+  rw [addrOffset_addr_num ss ai a k ma mk m hk false ae '-' h]
+  have : addrArith '-' a (sInt k false) = some (((65536 - (k - a) : Nat) : Int)) := by
     have : ((a : Int) - k) % 65536 = ((65536 - (k - a) : Nat) : Int) := by omega
     simp [addrArith, this]
   rw [this]
@@ -235,11 +238,11 @@ theorem addrOffset_sub_neg (h : addrIntOf ss ai = some a) (hr : a < k) (hk16 : k
 
 /-- subtraction never fails and always lands in 0..65535 -/
 theorem addrOffset_sub_total (h : addrIntOf ss ai = some a) :
-    ∃ z, z ≤ 65535 ∧ addrOffset ss (.expr (.address ai ma) (.numeric k hk mk nk) '-' m ae) =
+    ∃ z, z ≤ 65535 ∧ addrOffset ss (.expr (.address ai ma) (.numeric k hk mk false) '-' m ae) =
       .ok (.numeric z (some 4) .extended false) ∧ (z : Int) = ((a : Int) - k) % 65536 := by
-  rw [addrOffset_addr_num ss ai a k ma mk m hk nk ae '-' h]
+  rw [addrOffset_addr_num ss ai a k ma mk m hk false ae '-' h]
   refine ⟨(((a : Int) - k) % 65536).toNat, by omega, ?_, by omega⟩
-  have h0 : addrArith '-' a k = some (((a : Int) - k) % 65536) := by simp [addrArith]
+  have h0 : addrArith '-' a (sInt k false) = some (((a : Int) - k) % 65536) := by simp [addrArith]
   rw [h0]
   have h1 : ¬ (((a : Int) - k) % 65536) > 65535 := by omega
   have h2 : ¬ (((a : Int) - k) % 65536) < 0 := by omega
@@ -247,10 +250,10 @@ theorem addrOffset_sub_total (h : addrIntOf ss ai = some a) :
   simp only [addrResult, h1, h2, if_false, decide_false, h3]
 
 theorem addrOffset_mul (h : addrIntOf ss ai = some a) :
-    addrOffset ss (.expr (.address ai ma) (.numeric k hk mk nk) '*' m ae) =
+    addrOffset ss (.expr (.address ai ma) (.numeric k hk mk false) '*' m ae) =
       if a * k > 65535 then .diag else .ok (.numeric (a * k) (some 4) .extended false) := by
-  rw [addrOffset_addr_num ss ai a k ma mk m hk nk ae '*' h]
-  have : addrArith '*' a k = some (((a * k : Nat) : Int)) := by simp [addrArith]
+  rw [addrOffset_addr_num ss ai a k ma mk m hk false ae '*' h]
+  have : addrArith '*' a (sInt k false) = some (((a * k : Nat) : Int)) := by simp [addrArith]
   rw [this]
   by_cases h' : a * k > 65535
   · have : ((a * k : Nat) : Int) > 65535 := by omega
@@ -260,14 +263,14 @@ theorem addrOffset_mul (h : addrIntOf ss ai = some a) :
     simp only [addrResult, h', h1, h2, if_false, Int.natAbs_natCast, decide_false]
 
 theorem addrOffset_div_zero (h : addrIntOf ss ai = some a) :
-    addrOffset ss (.expr (.address ai ma) (.numeric 0 hk mk nk) '/' m ae) = .diag := by
-  rw [addrOffset_addr_num ss ai a 0 ma mk m hk nk ae '/' h]; rfl
+    addrOffset ss (.expr (.address ai ma) (.numeric 0 hk mk false) '/' m ae) = .diag := by
+  rw [addrOffset_addr_num ss ai a 0 ma mk m hk false ae '/' h]; rfl
 
 theorem addrOffset_div (h : addrIntOf ss ai = some a) (hk0 : k ≠ 0) (hb : a / k ≤ 65535) :
-    addrOffset ss (.expr (.address ai ma) (.numeric k hk mk nk) '/' m ae) =
+    addrOffset ss (.expr (.address ai ma) (.numeric k hk mk false) '/' m ae) =
       .ok (.numeric (a / k) (some 4) .extended false) := by
-  rw [addrOffset_addr_num ss ai a k ma mk m hk nk ae '/' h]
-  have : addrArith '/' a k = some (((a / k : Nat) : Int)) := by simp [addrArith, hk0]
+  rw [addrOffset_addr_num ss ai a k ma mk m hk false ae '/' h]
+  have : addrArith '/' a (sInt k false) = some (((a / k : Nat) : Int)) := by simp [addrArith, hk0]
   rw [this]
   have h1 : ¬ ((a / k : Nat) : Int) > 65535 := by omega
   have h2 : ¬ ((a / k : Nat) : Int) < 0 := Int.not_lt.mpr (Int.natCast_nonneg _)
@@ -281,17 +284,17 @@ theorem addrOffset_mirror (op : Char) (h : addrIntOf ss ai = some a) :
   rw [addrOffset_num_addr ss ai a k ma mk m hk nk ae op h, addrOffset_addr_num ss ai a k ma mk m hk nk ae op h]
 
 theorem addrOffset_mirror_add_ok (h : addrIntOf ss ai = some a) (hr : a + k ≤ 65535) :
-    addrOffset ss (.expr (.numeric k hk mk nk) (.address ai ma) '+' m ae) =
+    addrOffset ss (.expr (.numeric k hk mk false) (.address ai ma) '+' m ae) =
       .ok (.numeric (a + k) (some 4) .extended false) := by
-  rw [addrOffset_mirror ss ai a k ma mk m hk nk ae '+' h]
-  exact addrOffset_add_ok ss ai a k ma mk m hk nk ae h hr
+  rw [addrOffset_mirror ss ai a k ma mk m hk false ae '+' h]
+  exact addrOffset_add_ok ss ai a k ma mk m hk ae h hr
 
 /-- `k - LABEL` with `k ≤ address`: the model returns `address - k` (non-negative) -/
 theorem addrOffset_mirror_sub (h : addrIntOf ss ai = some a) (hr : k ≤ a) (hb : a - k ≤ 65535) :
-    addrOffset ss (.expr (.numeric k hk mk nk) (.address ai ma) '-' m ae) =
+    addrOffset ss (.expr (.numeric k hk mk false) (.address ai ma) '-' m ae) =
       .ok (.numeric (a - k) (some 4) .extended false) := by
-  rw [addrOffset_mirror ss ai a k ma mk m hk nk ae '-' h]
-  exact addrOffset_sub_nonneg ss ai a k ma mk m hk nk ae h hr hb
+  rw [addrOffset_mirror ss ai a k ma mk m hk false ae '-' h]
+  exact addrOffset_sub_nonneg ss ai a k ma mk m hk ae h hr hb
 
 end addr
 
@@ -310,7 +313,7 @@ theorem addrOffset_label_sub_label (h : addrIntOf ss ai = some a) (h' : addrIntO
     addrOffset ss (.expr (.address ai ma) (.address aj mb) '-' m ae) =
       .ok (.numeric (a - b) (some 4) .extended false) := by
   rw [addrOffset_addr_addr ss ai aj a b ma mb m ae '-' h h']
-  have : addrArith '-' a b = some (((a - b : Nat) : Int)) := by
+  have : addrArith '-' a (b : Int) = some (((a - b : Nat) : Int)) := by
     have : ((a : Int) - b) % 65536 = ((a - b : Nat) : Int) := by omega
     simp [addrArith, this]
   rw [this]
@@ -324,7 +327,7 @@ theorem addrOffset_label_sub_label_neg (h : addrIntOf ss ai = some a) (h' : addr
     addrOffset ss (.expr (.address ai ma) (.address aj mb) '-' m ae) =
       .ok (.numeric (65536 - (b - a)) (some 4) .extended false) := by
   rw [addrOffset_addr_addr ss ai aj a b ma mb m ae '-' h h']
-  have : addrArith '-' a b = some (((65536 - (b - a) : Nat) : Int)) := by
+  have : addrArith '-' a (b : Int) = some (((65536 - (b - a) : Nat) : Int)) := by
     have : ((a : Int) - b) % 65536 = ((65536 - (b - a) : Nat) : Int) := by omega
     simp [addrArith, this]
   rw [this]
@@ -337,7 +340,7 @@ theorem addrOffset_label_add_label (h : addrIntOf ss ai = some a) (h' : addrIntO
     addrOffset ss (.expr (.address ai ma) (.address aj mb) '+' m ae) =
       if a + b > 65535 then .diag else .ok (.numeric (a + b) (some 4) .extended false) := by
   rw [addrOffset_addr_addr ss ai aj a b ma mb m ae '+' h h']
-  have : addrArith '+' a b = some (((a + b : Nat) : Int)) := by simp [addrArith]
+  have : addrArith '+' a (b : Int) = some (((a + b : Nat) : Int)) := by simp [addrArith]
   rw [this]
   by_cases h'' : a + b > 65535
   · have : ((a + b : Nat) : Int) > 65535 := by omega
@@ -347,11 +350,12 @@ theorem addrOffset_label_add_label (h : addrIntOf ss ai = some a) (h' : addrIntO
     simp only [addrResult, h'', h1, h2, if_false, Int.natAbs_natCast, decide_false]
 
 /-- label `op` label in general: exactly what label `op` number computes for the number `address(L2)` -/
-theorem addrOffset_label_label_as_number (op : Char) (hk : Option Nat) (mk : Mode) (nk : Bool)
+theorem addrOffset_label_label_as_number (op : Char) (hk : Option Nat) (mk : Mode)
     (h : addrIntOf ss ai = some a) (h' : addrIntOf ss aj = some b) :
     addrOffset ss (.expr (.address ai ma) (.address aj mb) op m ae) =
-      addrOffset ss (.expr (.address ai ma) (.numeric b hk mk nk) op m ae) := by
-  rw [addrOffset_addr_addr ss ai aj a b ma mb m ae op h h', addrOffset_addr_num ss ai a b ma mk m hk nk ae op h]
+      addrOffset ss (.expr (.address ai ma) (.numeric b hk mk false) op m ae) := by
+  rw [addrOffset_addr_addr ss ai aj a b ma mb m ae op h h', addrOffset_addr_num ss ai a b ma mk m hk false ae op h]
+  rfl
 
 /-- the statement INDEX of the second label plays no role: two labels with the same address are interchangeable -/
 theorem addrOffset_label_label_index_irrelevant (op : Char) (aj' : Nat)
@@ -384,13 +388,114 @@ theorem C04_unresolved_concrete (ss : List Stmt) :
     addrOffset ss (.expr (.leftRight "1".toList "2".toList .none) (.address 0 .none) '-' .extended true) = .diag :=
   (addrOffset_unresolved ss 0 .none .extended true '-' _ rfl rfl).2
 
-/-! ### findings (kernel-checked witnesses) -/
+/-! ### operands of either sign (repair batch B2: `signed()` instead of `.int`) -/
 
-/-- FINDING: the `negative` flag of an operand is ignored.  With `X EQU -5`, `X+3` resolves to 8, not −2. -/
-theorem C04_finding_neg_operand_ignored :
+/-- **`resolve` on two numeric operands of either sign**: the integer arithmetic of their SIGNED values
+(`sInt n neg` = `-n` when the neg flag is set), range-checked and rendered by `numResult` -/
+theorem resolve_signed (a b : Nat) (ha hb : Option Nat) (ma mb : Mode) (na nb : Bool) (op : Char) (m : Mode)
+    (ae : Bool) (t : SymTab) :
+    (Value.expr (.numeric a ha ma na) (.numeric b hb mb nb) op m ae).resolve t =
+      (match modelArith op (sInt a na) (sInt b nb) with
+       | none => .error .other
+       | some z => numResult (resMode ma mb z) z) :=
+  resolve_expr_numeric a b ha hb ma mb na nb op m ae t
+
+/-- the same with the result spelt out: a value in −32768..65535 is returned as magnitude and sign -/
+theorem resolve_signed_ok (a b : Nat) (ha hb : Option Nat) (ma mb : Mode) (na nb : Bool) (op : Char) (m : Mode)
+    (ae : Bool) (t : SymTab) {z : Int} (hz : modelArith op (sInt a na) (sInt b nb) = some z)
+    (h1 : -32768 ≤ z) (h2 : z ≤ 65535) :
+    (Value.expr (.numeric a ha ma na) (.numeric b hb mb nb) op m ae).resolve t =
+      .ok (if z < 0 then negNum (resMode ma mb z) z.natAbs else posNum (resMode ma mb z) z.natAbs) := by
+  rw [resolve_signed, hz]
+  simp only [numResult_spec, h1, h2, and_self, if_true]
+
+/-- **`X op Y` with EQU constants of either sign** (`X EQU -5`, `Y EQU -3`): the symbols are looked up and the signed
+arithmetic value is returned -/
+theorem resolve_symbols_signed (x y : Str) (mx my : Mode) (a b : Nat) (ha hb : Option Nat) (ma mb : Mode)
+    (na nb : Bool) (op : Char) (m : Mode) (ae : Bool) (t : SymTab)
+    (hx : t.get? x = some (.numeric a ha ma na)) (hy : t.get? y = some (.numeric b hb mb nb)) :
+    (Value.expr (.symbol x mx) (.symbol y my) op m ae).resolve t =
+      (match modelArith op (sInt a na) (sInt b nb) with
+       | none => .error .other
+       | some z => numResult (resMode ma mb z) z) := by
+  rw [resolve_symbol_left x mx a ha ma na _ op m ae t hx, resolve_symbol_right y my b hb mb nb _ op m ae t hy]
+  exact resolve_signed a b ha hb ma mb na nb op m ae t
+
+/-- a plain symbol keeps the sign of its EQU (before the repair: the magnitude) -/
+theorem resolve_symbol_signed (x : Str) (mx : Mode) (a : Nat) (ha : Option Nat) (ma : Mode) (na : Bool) (t : SymTab)
+    (hx : t.get? x = some (.numeric a ha ma na)) :
+    (Value.symbol x mx).resolve t = numericOfInt (sInt a na) none .none := by
+  simp [Value.resolve, hx, Value.isAddress, Value.isNumeric, sInt]
+
+/-- `(−5) + 3 = −2`, `(−5) * (−3) = 15`, `(−7) / 2 = −3` (truncation towards zero), `(−5) − (−3) = −2` -/
+example : modelArith '+' (sInt 5 true) (sInt 3 false) = some (-2) ∧ modelArith '*' (sInt 5 true) (sInt 3 true) = some 15 ∧
+    modelArith '/' (sInt 7 true) (sInt 2 false) = some (-3) ∧ modelArith '-' (sInt 5 true) (sInt 3 true) = some (-2) := by
+  decide
+
+/-- **label ± signed constant**: `calculate_address_offset` with a constant of either sign -/
+theorem addrOffset_signed (ss : List Stmt) (ai a k : Nat) (ma mk m : Mode) (hk : Option Nat) (nk ae : Bool) (op : Char)
+    (h : addrIntOf ss ai = some a) :
+    addrOffset ss (.expr (.address ai ma) (.numeric k hk mk nk) op m ae) =
+      (match addrArith op a (sInt k nk) with | none => .diag | some z => addrResult z) :=
+  addrOffset_addr_num ss ai a k ma mk m hk nk ae op h
+
+/-- `L + X` with `X EQU -k`, k not above the address of `L`: the address minus `k` (before the repair: plus `k`) -/
+theorem addrOffset_add_negative (ss : List Stmt) (ai a k : Nat) (ma mk m : Mode) (hk : Option Nat) (ae : Bool)
+    (h : addrIntOf ss ai = some a) (hle : k ≤ a) (hb : a - k ≤ 65535) :
+    addrOffset ss (.expr (.address ai ma) (.numeric k hk mk true) '+' m ae) =
+      .ok (.numeric (a - k) (some 4) .extended false) := by
+  rw [addrOffset_signed ss ai a k ma mk m hk true ae '+' h]
+  have : addrArith '+' a (sInt k true) = some (((a - k : Nat) : Int)) := by
+    have : (a : Int) + -(k : Int) = ((a - k : Nat) : Int) := by omega
+    simp [addrArith, this]
+  rw [this]
+  have h1 : ¬ ((a - k : Nat) : Int) > 65535 := by omega
+  have h2 : ¬ ((a - k : Nat) : Int) < 0 := by omega
+  simp only [addrResult, h1, h2, if_false, Int.natAbs_natCast, decide_false]
+
+/-- `L - X` with `X EQU -k`: the address plus `k`, modulo 65536 -/
+theorem addrOffset_sub_negative (ss : List Stmt) (ai a k : Nat) (ma mk m : Mode) (hk : Option Nat) (ae : Bool)
+    (h : addrIntOf ss ai = some a) :
+    addrOffset ss (.expr (.address ai ma) (.numeric k hk mk true) '-' m ae) =
+      .ok (.numeric ((a + k) % 65536) (some 4) .extended false) := by
+  rw [addrOffset_signed ss ai a k ma mk m hk true ae '-' h]
+  have : addrArith '-' a (sInt k true) = some ((((a + k) % 65536 : Nat) : Int)) := by
+    simp [addrArith]
+  rw [this]
+  have h1 : ¬ (((a + k) % 65536 : Nat) : Int) > 65535 := by omega
+  have h2 : ¬ (((a + k) % 65536 : Nat) : Int) < 0 := by omega
+  simp only [addrResult, h1, h2, if_false, Int.natAbs_natCast, decide_false]
+
+/-! ### a negative value as a memory operand: extended, the address modulo 65536 -/
+
+/-- `resolve_symbols` of an operand whose value resolves to a NEGATIVE number: never a direct operand (even when the
+magnitude is below 256, even with an explicit `<`); it becomes an ExtendedOperand carrying the signed value -/
+theorem resolveOperand_unknown_negative (row : Gen.InstrRow) (s : Str) (v0 : Value) (t : SymTab) {i : Nat}
+    {h : Option Nat} {m : Mode} (hv : v0.resolve t = .ok (.numeric i h m true)) :
+    resolveOperand { kind := .unknown, text := s, value := v0 } row t =
+      .ok { kind := .extended, text := s, value := .numeric i h m true } := by
+  cases hx : v0.isExplicitExtended <;> simp [resolveOperand, hv, hx]
+
+/-- ... and the extended operand of a negative value −i, 1 ≤ i ≤ 32768, is encoded as the address 65536 − i -/
+theorem C04_negative_extended {r : Gen.InstrRow} (hr : r ∈ Gen.instructions) (hp : r.isPseudo = false)
+    {o : Asm.Operand} {c i : Nat} {h : Option Nat} {m : Mode} (hk : o.kind = .extended) (hc : r.ext = some c)
+    (hv : o.value = .numeric i h m true) (h1 : 1 ≤ i) (h2 : i ≤ 32768) : Encodes o r (.ext (65536 - i)) := by
+  have hf : fitsWord i true = true := by simp [fitsWord]; omega
+  have hw : wordField i true = 65536 - i := by simp only [wordField, if_true]; omega
+  have := enc_ext_gen (ad := [wordField i true / 256, wordField i true % 256]) (operand := .ext (wordField i true))
+    hp (notSpecial_of_ext hr hc) hk hc (cell_ext hr hp hc).1 hv (.word hf) (by simpa using (cell_ext hr hp hc).2)
+    (by simp [decodeTail, hi_lo])
+  rwa [hw] at this
+
+/-! ### repaired findings (kernel-checked witnesses on the same source statements) -/
+
+/-- REPAIRED (batch B2; formerly `C04_finding_neg_operand_ignored`: 8): with `X EQU -5`, `X+3` resolves to −2 -/
+theorem C04_finding_neg_operand_ignored_fixed :
     (Value.expr (.symbol ['X'] .none) (.numeric 3 (some 2) .direct false) '+' .none false).resolve
-        [(['X'], .numeric 5 none .none true)] = .ok (.numeric 8 (some 2) .direct false) := by
-  rw [resolve_symbol_left ['X'] .none 5 none .none true _ _ _ _ _ rfl, resolve_add_ok _ _ _ _ _ _ _ _ _ _ _ (by decide)]
+        [(['X'], .numeric 5 none .none true)] = .ok (.numeric 2 none .direct true) := by
+  rw [resolve_symbol_left ['X'] .none 5 none .none true _ _ _ _ _ rfl,
+    resolve_signed_ok 5 3 none (some 2) .none .direct true false '+' .none false _ (z := -2) (by decide) (by decide)
+      (by decide)]
   rfl
 
 /-- FINDING: `5-LABEL` (constant minus address) is computed as `LABEL-5`.  With the label at address 100
@@ -398,7 +503,7 @@ the model answers +95; arithmetic says −95. -/
 theorem C04_finding_const_minus_address (ss : List Stmt) (ai : Nat) (h : addrIntOf ss ai = some 100) :
     addrOffset ss (.expr (.numeric 5 (some 2) .direct false) (.address ai .none) '-' .extended true) =
       .ok (.numeric 95 (some 4) .extended false) :=
-  addrOffset_mirror_sub ss ai 100 5 _ _ _ _ _ _ h (by decide) (by decide)
+  addrOffset_mirror_sub ss ai 100 5 _ _ _ _ _ h (by decide) (by decide)
 
 /-- the same finding on a concrete one-statement program -/
 theorem C04_finding_const_minus_address_concrete :
@@ -413,26 +518,26 @@ theorem C04_finding_const_div_address (ss : List Stmt) (ai : Nat) (h : addrIntOf
       .ok (.numeric 5 (some 4) .extended false) := by
   rw [addrOffset_num_addr ss ai 100 20 _ _ _ _ _ _ '/' h]; rfl
 
-/-! ### the result mode (fix A13) and what is left of the sign (findings) -/
+/-! ### the result mode (fix A13) and the sign of the result (batch B2) -/
 
 /-- REPAIRED (A13): a sum of two direct-page values that leaves the direct page is an EXTENDED value with size hint 4
 (before the repair it stayed direct and the operand was truncated) -/
-theorem resolve_add_leaves_direct_page (a b : Nat) (ha hb : Option Nat) (ma mb : Mode) (na nb : Bool) (m : Mode)
+theorem resolve_add_leaves_direct_page (a b : Nat) (ha hb : Option Nat) (ma mb : Mode) (m : Mode)
     (ae : Bool) (t : SymTab) (h1 : 256 ≤ a + b) (h2 : a + b ≤ 65535) :
-    (Value.expr (.numeric a ha ma na) (.numeric b hb mb nb) '+' m ae).resolve t =
+    (Value.expr (.numeric a ha ma false) (.numeric b hb mb false) '+' m ae).resolve t =
       .ok (.numeric (a + b) (some 4) .extended false) := by
-  rw [resolve_add_ok a b ha hb ma mb na nb m ae t h2]
+  rw [resolve_add_ok a b ha hb ma mb m ae t h2]
   have hm : resMode ma mb ((a + b : Nat) : Int) = .extended := by
     have : ((a + b : Nat) : Int) > 255 := by omega
     unfold resMode; rw [if_pos this]
   rw [hm]; simp [posNum]
 
 /-- ... and a result that stays below 256 keeps the mode of its operands -/
-theorem resolve_add_stays (a b : Nat) (ha hb : Option Nat) (ma mb : Mode) (na nb : Bool) (m : Mode)
+theorem resolve_add_stays (a b : Nat) (ha hb : Option Nat) (ma mb : Mode) (m : Mode)
     (ae : Bool) (t : SymTab) (h : a + b ≤ 255) :
-    (Value.expr (.numeric a ha ma na) (.numeric b hb mb nb) '+' m ae).resolve t =
+    (Value.expr (.numeric a ha ma false) (.numeric b hb mb false) '+' m ae).resolve t =
       .ok (posNum (exprMode ma mb) (a + b)) := by
-  rw [resolve_add_ok a b ha hb ma mb na nb m ae t (by omega)]
+  rw [resolve_add_ok a b ha hb ma mb m ae t (by omega)]
   have hm : resMode ma mb ((a + b : Nat) : Int) = exprMode ma mb := by
     have : ¬ ((a + b : Nat) : Int) > 255 := by omega
     unfold resMode; rw [if_neg this]
@@ -442,18 +547,18 @@ theorem resolve_add_stays (a b : Nat) (ha hb : Option Nat) (ma mb : Mode) (na nb
 example : ∃ v, createV "$F0+$20".toList false false = .ok v ∧
     v.resolve [] = .ok (.numeric 0x110 (some 4) .extended false) :=
   ⟨.expr (.numeric 0xF0 (some 2) .direct false) (.numeric 0x20 (some 2) .direct false) '+' .extended false, rfl,
-    resolve_add_leaves_direct_page 0xF0 0x20 _ _ _ _ _ _ _ _ _ (by decide) (by decide)⟩
+    resolve_add_leaves_direct_page 0xF0 0x20 _ _ _ _ _ _ _ (by decide) (by decide)⟩
 
 /-- the same end to end: `LDA $F0+$20` is the extended `B6 01 10`, `LDA $10+$20` the direct `96 30` -/
 theorem C04_direct_sum_fixed :
     asmOne "LDA" "$F0+$20" = some (3, [0xB6, 0x01, 0x10]) ∧ asmOne "LDA" "$10+$20" = some (2, [0x96, 0x30]) := by
   decide +kernel
 
-/-- STILL A FINDING (remnant of A6 / A13): a NEGATIVE expression result loses its sign when it becomes a direct or
-extended operand (`resolve_symbols` rebuilds the value from its magnitude): `LDA 1-$FF` is `96 FE` (254, not −254
-which has no address), `LDA 1-2` is `96 01`; as an immediate the sign is kept (`LDA #1-2` is `86 FF`) -/
-theorem C04_finding_negative_result_loses_sign :
-    asmOne "LDA" "1-$FF" = some (2, [0x96, 0xFE]) ∧ asmOne "LDA" "1-2" = some (2, [0x96, 0x01]) ∧
+/-- REPAIRED (batch B2; formerly `C04_finding_negative_result_loses_sign`: `96 FE`, `96 01`): a NEGATIVE expression
+result as a memory operand is an extended operand, the address modulo 65536: `LDA 1-$FF` is `B6 FF 02` (−254),
+`LDA 1-2` is `B6 FF FF`; as an immediate the sign was and is kept -/
+theorem C04_finding_negative_result_loses_sign_fixed :
+    asmOne "LDA" "1-$FF" = some (3, [0xB6, 0xFF, 0x02]) ∧ asmOne "LDA" "1-2" = some (3, [0xB6, 0xFF, 0xFF]) ∧
     asmOne "LDA" "#1-2" = some (2, [0x86, 0xFF]) ∧ asmOne "LDX" "#1-2" = some (3, [0x8E, 0xFF, 0xFF]) := by
   decide +kernel
 
@@ -465,14 +570,52 @@ theorem C04_finding_equ_expression (fs : Files) :
 theorem C04_finding_label_index_offset (fs : Files) :
     assemble fs ["L NOP\n".toList, " LDA L,X\n".toList] = .diag := progDiag_sound (by decide +kernel) fs
 
-/-- STILL A FINDING: a negative EQU constant is used as its magnitude (`X EQU -5`, `LDA #X` is `86 05`) -/
-theorem C04_finding_negative_equ (fs : Files) :
-    ∃ a, assemble fs ["X EQU -5\n".toList, " LDA #X\n".toList] = .ok a ∧ a.image = some [0x86, 0x05] := by
-  obtain ⟨a, ha, hc⟩ := progCheck_sound (check := fun a => a.image == some [0x86, 0x05])
-    (lines := ["X EQU -5\n".toList, " LDA #X\n".toList]) (by decide +kernel) fs
+/-- whole-program witness: the image of an INCLUDE-free program -/
+theorem image_of (lines : List Str) (img : Bytes) (h : progCheck lines (fun a => a.image == some img) = true)
+    (fs : Files) : ∃ a, assemble fs lines = .ok a ∧ a.image = some img := by
+  obtain ⟨a, ha, hc⟩ := progCheck_sound (check := fun a => a.image == some img) (lines := lines) h fs
   exact ⟨a, ha, by simpa using hc⟩
 
-/-! ### the full-strength statement, its refutation, and the part that holds -/
+/-- REPAIRED (batch B2; formerly `C04_finding_negative_equ`: `86 05`): a negative EQU constant keeps its sign,
+`X EQU -5`, `LDA #X` is `86 FB` -/
+theorem C04_finding_negative_equ_fixed (fs : Files) :
+    ∃ a, assemble fs ["X EQU -5\n".toList, " LDA #X\n".toList] = .ok a ∧ a.image = some [0x86, 0xFB] :=
+  image_of _ _ (by decide +kernel) fs
+
+/-- `X EQU -5`, `LDX #X` is `8E FF FB` -/
+theorem C04_negative_equ_word (fs : Files) :
+    ∃ a, assemble fs ["X EQU -5\n".toList, " LDX #X\n".toList] = .ok a ∧ a.image = some [0x8E, 0xFF, 0xFB] :=
+  image_of _ _ (by decide +kernel) fs
+
+/-- `X EQU -5` is listed in the symbol table as `$FFFB` (`numHex`: four digits hold the 16-bit two's complement) -/
+theorem C04_negative_equ_symtab (fs : Files) :
+    ∃ a, assemble fs ["X EQU -5\n".toList, " LDX #X\n".toList] = .ok a ∧
+      symtabLines a.symtab = some ["$FFFB X".toList] := by
+  obtain ⟨a, ha, hc⟩ := progCheck_sound (check := fun a => symtabLines a.symtab == some ["$FFFB X".toList])
+    (lines := ["X EQU -5\n".toList, " LDX #X\n".toList]) (by decide +kernel) fs
+  exact ⟨a, ha, by simpa using hc⟩
+
+/-- `X EQU -5`, `LDA X`: the memory operand is the extended address `$FFFB` -/
+theorem C04_negative_equ_memory (fs : Files) :
+    ∃ a, assemble fs ["X EQU -5\n".toList, " LDA X\n".toList] = .ok a ∧ a.image = some [0xB6, 0xFF, 0xFB] :=
+  image_of _ _ (by decide +kernel) fs
+
+/-- `X EQU -5`, `Y EQU -3`: `X*Y` = 15, `X/Y` = 1, `X-Y` = −2, `X+Y` = −8, and `X EQU -7`: `X/2` = −3 -/
+theorem C04_negative_equ_arith (fs : Files) :
+    (∃ a, assemble fs ["X EQU -5\n".toList, "Y EQU -3\n".toList, " LDA #X*Y\n".toList, " LDA #X/Y\n".toList,
+        " LDA #X-Y\n".toList, " LDX #X+Y\n".toList] = .ok a ∧
+      a.image = some [0x86, 0x0F, 0x86, 0x01, 0x86, 0xFE, 0x8E, 0xFF, 0xF8]) ∧
+    (∃ a, assemble fs ["X EQU -7\n".toList, " LDA #X/2\n".toList, " LDA #X+3\n".toList] = .ok a ∧
+      a.image = some [0x86, 0xFD, 0x86, 0xFC]) :=
+  ⟨image_of _ _ (by decide +kernel) fs, image_of _ _ (by decide +kernel) fs⟩
+
+/-- label ± negative constant: `X EQU -5`, `L` at address 0: `L+X` is `$FFFB`, `L-X` is 5 -/
+theorem C04_label_negative_constant (fs : Files) :
+    ∃ a, assemble fs ["X EQU -5\n".toList, "L NOP\n".toList, " LDX #L+X\n".toList, " LDX #L-X\n".toList] = .ok a ∧
+      a.image = some [0x12, 0x8E, 0xFF, 0xFB, 0x8E, 0x00, 0x05] :=
+  image_of _ _ (by decide +kernel) fs
+
+/-! ### the full-strength statement, now proved -/
 
 /-- the signed value a numeric operand denotes -/
 def sval (n : Nat) (neg : Bool) : Int := if neg then -(n : Int) else n
@@ -513,7 +656,7 @@ def SymbolPart : Prop :=
 /-- C04 at full strength: signed arithmetic for operands of either sign, plus the symbol part -/
 def C04_Statement : Prop := (∀ na nb, NumericArith na nb) ∧ SymbolPart
 
-/-- what the model satisfies: the numeric part restricted to NON-NEGATIVE operands, plus the symbol part -/
+/-- the part that held before batch B2: the numeric part restricted to NON-NEGATIVE operands, plus the symbol part -/
 def C04_PartialStatement : Prop := NumericArith false false ∧ SymbolPart
 
 theorem symbolPart : SymbolPart :=
@@ -522,22 +665,21 @@ theorem symbolPart : SymbolPart :=
    fun x mx o op m ae t h => ⟨resolve_undefined_left x mx o op m ae t h, resolve_undefined_right x mx o op m ae t h⟩,
    resolve_depends_only_on_lookup⟩
 
-theorem arith_nonneg (op : Char) (hop : opChar op = true) (a b : Nat) :
-    arith op (a : Int) (b : Int) = modelArith op a b := by
+/-- the specification's arithmetic is the model's, on the four operators -/
+theorem arith_eq_model (op : Char) (hop : opChar op = true) (x y : Int) : arith op x y = modelArith op x y := by
   simp only [opChar, Bool.or_eq_true, beq_iff_eq] at hop
   rcases hop with ((rfl | rfl) | rfl) | rfl
   · simp [arith, modelArith]
   · simp [arith, modelArith]
-  · by_cases hb : b = 0
-    · subst hb; simp [arith, modelArith]
-    · simp [arith, modelArith, hb]
+  · simp [arith, modelArith]
   · simp [arith, modelArith]
 
-theorem numericArith_nonneg : NumericArith false false := by
+/-- the numeric part for operands of EITHER sign (true since batch B2) -/
+theorem numericArith (na nb : Bool) : NumericArith na nb := by
   intro a b ha hb ma mb op m ae t hop
-  have hs : ∀ n : Nat, sval n false = (n : Int) := fun n => by simp [sval]
-  rw [hs, hs, arith_nonneg op hop, resolve_expr_numeric]
-  cases modelArith op a b with
+  have hs : ∀ (n : Nat) (g : Bool), sval n g = sInt n g := fun _ _ => rfl
+  rw [hs, hs, arith_eq_model op hop, resolve_signed]
+  cases modelArith op (sInt a na) (sInt b nb) with
   | none => rfl
   | some z =>
     simp only
@@ -549,48 +691,50 @@ theorem numericArith_nonneg : NumericArith false false := by
       · exact ⟨_, by simp [hz, posNum]; rfl⟩
     · simp only [hr, if_false]
 
-/-- C04, the part that holds -/
+theorem numericArith_nonneg : NumericArith false false := numericArith false false
+
+/-- C04, the part that held before batch B2 -/
 theorem C04_partial : C04_PartialStatement := ⟨numericArith_nonneg, symbolPart⟩
 
-/-- C04 at full strength is FALSE for the model: a negative operand (reachable through `X EQU -5`) is used
-as its magnitude.  Counterexample: (−5) + 3 must be −2, the model answers 8. -/
-theorem C04_Statement_false : ¬ C04_Statement := by
-  intro h
-  have h1 := h.1 true false 5 3 none none .none .none '+' .none false [] (by decide)
-  have hz : arith '+' (sval 5 true) (sval 3 false) = some (-2) := by decide
-  rw [hz] at h1
-  simp only [resolve_add_ok 5 3 none none .none .none true false .none false [] (by decide)] at h1
-  rw [if_pos (by decide)] at h1
-  obtain ⟨hh, h1⟩ := h1
-  simp [posNum] at h1
+/-- **C04 at full strength** (formerly `C04_Statement_false`: a negative operand, reachable through `X EQU -5`, was
+used as its magnitude; the counterexample (−5) + 3 now gives −2, `C04_Statement_false_fixed`) -/
+theorem C04_full : C04_Statement := ⟨numericArith, symbolPart⟩
+
+/-- REPAIRED: the former counterexample of `C04_Statement_false`, (−5) + 3 -/
+theorem C04_Statement_false_fixed :
+    (Value.expr (.numeric 5 none .none true) (.numeric 3 none .none false) '+' .none false).resolve [] =
+      .ok (.numeric 2 none .direct true) := by
+  rw [resolve_signed_ok 5 3 none none .none .none true false '+' .none false [] (z := -2) (by decide) (by decide)
+    (by decide)]
+  rfl
 
 /-! ### non-vacuity: concrete expressions through `createV` and `resolve` -/
 
 example : ∃ v, createV "5+3".toList false false = .ok v ∧
     v.resolve [] = .ok (.numeric 8 (some 2) .direct false) :=
   ⟨.expr (.numeric 5 (some 2) .direct false) (.numeric 3 (some 2) .direct false) '+' .extended false, rfl,
-    resolve_add_ok 5 3 _ _ _ _ _ _ _ _ _ (by decide)⟩
+    resolve_add_ok 5 3 _ _ _ _ _ _ _ (by decide)⟩
 
 /-- `X EQU 3`, then `X-10` is −7 (magnitude 7 with the neg flag) -/
 example : ∃ v, createV "X-10".toList false false = .ok v ∧
     v.resolve [("X".toList, .numeric 3 (some 2) .direct false)] = .ok (.numeric 7 none .direct true) :=
   ⟨.expr (.symbol ['X'] .none) (.numeric 10 (some 2) .direct false) '-' .extended false, rfl, by
     rw [resolve_symbol_left ['X'] .none 3 (some 2) .direct false _ _ _ _ _ rfl,
-      resolve_sub_neg 3 10 _ _ _ _ _ _ _ _ _ (by decide)]
+      resolve_sub_neg 3 10 _ _ _ _ _ _ _ (by decide)]
     rfl⟩
 
 example : ∃ v, createV "$FFFF+1".toList false false = .ok v ∧ v.resolve [] = .error .other :=
   ⟨.expr (.numeric 65535 none .extended false) (.numeric 1 (some 2) .direct false) '+' .extended false, rfl,
-    resolve_add_overflow 65535 1 _ _ _ _ _ _ _ _ _ (by decide)⟩
+    resolve_add_overflow 65535 1 _ _ _ _ _ _ _ (by decide)⟩
 
 example : ∃ v, createV "7/0".toList false false = .ok v ∧ v.resolve [] = .error .other :=
   ⟨.expr (.numeric 7 (some 2) .direct false) (.numeric 0 (some 2) .direct false) '/' .extended false, rfl,
-    resolve_div_zero 7 _ _ _ _ _ _ _ _ _⟩
+    resolve_div_zero 7 _ _ _ _ _ _ _⟩
 
 example : ∃ v, createV "300*2".toList false false = .ok v ∧
     v.resolve [] = .ok (.numeric 600 (some 4) .extended false) :=
   ⟨.expr (.numeric 300 none .extended false) (.numeric 2 (some 2) .direct false) '*' .extended false, rfl,
-    resolve_mul 300 2 _ _ _ _ _ _ _ _ _⟩
+    resolve_mul 300 2 _ _ _ _ _ _ _⟩
 
 example : ∃ v, createV "UNDEF+1".toList false false = .ok v ∧ v.resolve [] = .error .other :=
   ⟨.expr (.symbol "UNDEF".toList .none) (.numeric 1 (some 2) .direct false) '+' .extended false, rfl,
@@ -601,7 +745,11 @@ end CoCo.Props
 section axioms
 open CoCo.Props
 #print axioms C04_partial
-#print axioms C04_Statement_false
+#print axioms C04_full
+#print axioms resolve_symbols_signed
+#print axioms C04_negative_extended
+#print axioms C04_negative_equ_word
+#print axioms addrOffset_add_negative
 #print axioms resolve_add_leaves_direct_page
 #print axioms C04_finding_equ_expression
 end axioms
